@@ -287,7 +287,8 @@ def gen_reg_spec(g: SimRng, kind):
             p["metric_dict"] = {"gamma": g.pick([0.1, 1.0, 5.0])}
         if kind == "nic":
             if g.chance(0.5):
-                p.update(mu_0=g.pick([0, 1.5]), kappa_0=g.pick([0.1, 1.0]), sigma_sq_0=g.pick([1.0, 0.25]), nu_0=g.pick([2.5, 5.0]))
+                # (a prior centred on far-away targets: then the data, not the prior/data disagreement, decides the scale)
+                p.update(mu_0=g.pick([0, 1.5, 1.0e9]), kappa_0=g.pick([0.1, 1.0]), sigma_sq_0=g.pick([1.0, 0.25]), nu_0=g.pick([2.5, 5.0]))
         return {"kind": kind, "params": p}
     if kind == "skl_reg":
         return {"kind": kind, "est": g.pick(["linreg", "dtr", "sgdr", "linreg"]), "est_seed": g.randrange(0, 50), "faulty": True, "params": p}
@@ -1178,13 +1179,14 @@ class C15Check(LifeCheckBase):
                 # business -- BayesianRidge / GaussianProcessRegressor return NaN for targets around 1e9 -- not judged)
             # ---- coherence with the target distribution
             if spec["kind"] in ("nic", "nwr", "skl_normal"):
-                if not self._coherence(ctx, est, spec, Xq, subj, cond, t, nl):
+                Xl = np.array(ds["X"], dtype=float)[~np.isnan(y)]
+                if not self._coherence(ctx, est, spec, Xq, subj, cond, t, nl, Xl):
                     break
             ctx.sim_time += 1
         sig = "|".join([subj, spec.get("est", "-"), ",".join(sorted(ctx.probes)), ",".join(sorted(ctx.faults))])
         return ctx.result(sig=sig, extra={"aborted": events == 0 and not ctx.violations})
 
-    def _coherence(self, ctx, est, spec, Xq, subj, cond, t, nl):
+    def _coherence(self, ctx, est, spec, Xq, subj, cond, t, nl, Xl=None):
         try:
             rv = est.predict_target_distribution(Xq)
             mu, sd, ent = est.predict(Xq, return_std=True, return_entropy=True)
@@ -1206,6 +1208,17 @@ class C15Check(LifeCheckBase):
             if spec["kind"] == "nic" and (not np.isfinite(sdv).all() or (sdv < 0).any()):
                 ctx.violate("std-invalid", subj, f"op {t}: standard deviation {sdv[:4]} is not finite and non-negative ({nl} labels, proper prior: {proper_prior})", cond)
                 return False
+        if spec["kind"] == "nwr" and nl >= 2 and Xl is not None and len(Xl):
+            # no prior: judged where kernel mass is guaranteed, i.e. at the labeled training points themselves
+            try:
+                _, sd_l = est.predict(Xl, return_std=True)
+                sd_l = np.asarray(sd_l, dtype=float)
+                ctx.probe("std_checked")
+                if not np.isfinite(sd_l).all() or (sd_l < 0).any():
+                    ctx.violate("std-invalid", subj, f"op {t}: standard deviation at labeled training points is {sd_l[:4]} with {nl} labels", cond)
+                    return False
+            except Exception:
+                pass
         try:
             s1 = np.asarray(est.sample_y(Xq, 3, random_state=7))
             s2 = np.asarray(est.sample_y(Xq, 3, random_state=7))
